@@ -1046,7 +1046,7 @@ def compare_all(rd, res, expected, text, first):
             rd.new('symbol-missing', nd, dict(name=name, defined=(defined or [])[:12]))
         else:
             rd.count('symbols_compared:' + be)
-            compare_symbol(rd, name, rel, nd, rec)
+            compare_symbol(rd, name, rel, nd, rec, text)
         if chaotic and any(not d.get('known') for d in rd.devs[before:]):
             deferred += rd.devs[before:]
             del rd.devs[before:]
@@ -1070,7 +1070,7 @@ def compare_all(rd, res, expected, text, first):
         rd.again = True
 
 
-def compare_symbol(rd, name, rel, nd, rec):
+def compare_symbol(rd, name, rel, nd, rec, text=''):
     be, opt = rd.be, rd.opt
     k, bits, uns = dt_info(nd['dt'])
     form = sym_form(be, opt, rel)
@@ -1078,8 +1078,9 @@ def compare_symbol(rd, name, rel, nd, rec):
     exp_shape = nd['shape']
     exp_flat = flatten(nd['value'])
     obs_shape, obs = rec['shape'], rec['values']
-    info = dict(name=name, dtype=nd['dt'], expected=brief(nd['value']), read_type=rec['type'], read_shape=obs_shape,
-                read_back=brief(obs))
+    xline = next((l for l in text.split('\n') if re.search(r'(?<![\w.])' + re.escape(name) + r'(?![\w.])', l)), '')
+    info = dict(name=name, dtype=nd['dt'], exported_line=xline.strip()[:200], expected=brief(nd['value']),
+                read_type=rec['type'], read_shape=obs_shape, read_back=brief(obs))
 
     # ---- macro-ness (C / C++)
     if be in ('c', 'cpp'):
